@@ -150,6 +150,21 @@ func runC01(r *Run) {
 		for _, pc := range CallsTo(fn, "iface(crypto.Signer).Public") {
 			r.ExpectArg(pc, "buildV1SCT:public-of-signer", 0, "p0")
 		}
+		// every SCT is signed in this call with this log's signer: the success return cannot be
+		// reached around signer.Sign (a signature taken from anywhere else — e.g. a cache keyed by
+		// the signed bytes, which do not name the log — may belong to another key)
+		if sg := CallsTo(fn, "iface(crypto.Signer).Sign"); len(sg) == 1 {
+			reach := r.D.Walk(fn, Sigma{}, nil, map[*ssa.BasicBlock]bool{sg[0].Block(): true})
+			r.Valuations++
+			ok := true
+			for _, ret := range successReturns(fn) {
+				if reach.Has(ret) {
+					ok = false
+				}
+			}
+			r.Check("buildV1SCT:always-signs", ok, r.Where(sg[0]), "no success return is reachable without passing signer.Sign")
+		}
+		r.Check("buildV1SCT:no-signature-cache", len(CallsTo(fn, "(*trillian/ctfe.SignatureCache).*")) == 0, r.FnPos(fn), "buildV1SCT does not consult a signature cache")
 	}
 	for name, want := range map[string]string{"tls.SHA256": "4", "ct.V1": "0", "ct.X509LogEntryType": "0", "ct.PrecertLogEntryType": "1"} {
 		c := r.P.LookupConst(name)
